@@ -465,6 +465,7 @@ def shape_nbr_case(rng, name, st, names):
     size = rng.randrange(0, 41) if r < 0.55 else rng.randrange(0, 14) if r < 0.8 else rng.choice(NBR_SIZES_ODD)
     r = rng.random()
     dims = rng.randrange(0, 5) if r < 0.7 else rng.choice([-1, -3, -2147483648, 5, 6, 7, 12, size - 1, size, size + 1, 63, 64, 65, 70, 2147483647])
+    dims = max(dims, -2147483648)
     r = rng.random()
     index = rng.randrange(0, max(size, 1)) if r < 0.6 else rng.randrange(-3, max(size, 0) + 4) if r < 0.9 else rng.choice(I32)
     r = rng.random()
